@@ -1,6 +1,6 @@
 SPECIFICATION Spec
 CONSTANTS
-  Vary = {"mainpos", "mainfirst", "keep", "fn", "pos"}
+  Vary = {"mainpos", "mainfirst", "keep", "fn"}
   Fns = {"Print", "Printf", "Println", "Fprint", "Fprintf", "Fprintln", "Sprint", "Sprintf", "Sprintln", "Errorf", "Sscan"}
   Shs = {"-"}
 INVARIANTS TypeOK Confluent ImportSound Export
